@@ -391,10 +391,12 @@ def stod := sto .F64
 
 /-! ### specification side: the grammar, the longest numeric prefix, the exact decimal value -/
 
-/-- a decimal lexeme: sign, integer digits, fraction digits, optional exponent (sign, digits); digits as values 0-9 -/
+/-- a decimal lexeme: sign, integer digits, whether a '.' is present, fraction digits, optional exponent
+(is it negative?, digits); digits as values 0-9 -/
 structure Lexeme where
   neg : Bool
   intDigits : List Nat
+  hasDot : Bool
   fracDigits : List Nat
   exp : Option (Bool × List Nat)
   deriving DecidableEq, Repr
@@ -492,7 +494,7 @@ def scanNum (s : Bytes) : Option (NumKind × Nat) :=
       let s4 := s3.drop fr.2
       let ex := expPart s4
       let s5 := s4.drop ex.2
-      some (.dec { neg := sg.1, intDigits := ip.map digitOf, fracDigits := fr.1.map digitOf, exp := ex.1 },
+      some (.dec { neg := sg.1, intDigits := ip.map digitOf, hasDot := fr.2 != 0, fracDigits := fr.1.map digitOf, exp := ex.1 },
             p0 + ip.length + fr.2 + ex.2 + sufLen s5)
 
 /-- length of the longest numeric prefix of `s`, `none` if `s` does not start with a number -/
